@@ -248,6 +248,18 @@ def generate(seed: int, tier: str) -> dict:
         else:
             k = rng.choice(keys) if keys and rng.random() < 0.7 else rng.choice(ABSENT)
             ops.append({"op": "get", "on": on, "keys": prefix + [k]})
+    if not alias and isinstance(model, dict) and rng.random() < 0.1:
+        # last step: a *set* of the document is assigned under a second name (`src["c"] = src["a"]`; both names then
+        # hold the same object, as in a Python dict - which is why nothing follows); the text must show it twice
+        subs = sorted(k for k, v in model.items() if isinstance(v, dict) and v)
+        if subs:
+            k2 = rng.choice(subs)
+            others = sorted(k for k in model if k != k2)
+            k = rng.choice(others) if others and rng.random() < 0.7 else rng.choice(gen.FRESH[:4])
+            ops.append({"op": "set", "on": "doc", "keys": [k], "value": {"from": [k2]}})
+            import copy
+
+            model[k] = copy.deepcopy(model[k2])
     return case
 
 
@@ -565,6 +577,9 @@ def generate_spelling(seed: int, tier: str) -> dict:
     def members(ind):
         nonlocal tag
         lines, model = [], {}
+        if rng.random() < 0.2:
+            # no member at all, only a comment or a blank line between the braces
+            return [rng.choice([ind + "# filled in later", "", ind + "# a\n\n" + ind + "# b"])], {}
         pool = list(SPELL_NAMES)
         rng.shuffle(pool)
         for n in pool[: rng.randint(1, 4)]:
